@@ -219,9 +219,10 @@ class BackendBase:
 class FloatBackend(BackendBase):
     sym = False
 
-    def __init__(self, cfg_key, seed, rtol=1e-8):
+    def __init__(self, cfg_key, seed, rtol=1e-8, tier="quick"):
         super().__init__(cfg_key, seed)
         self.rtol = rtol
+        self.tier = tier
 
     def array(self, shape, name, complex_=False, positive=False, lo=None, hi=None, nan_mask=None):
         v = self._draw(shape, complex_, positive, lo, hi)
